@@ -35,6 +35,7 @@ ASSUMPTIONS = [
     "'needed by a repository package' = every file of its SRC_URI regardless of USE; 'needed by an installed package' = files under its recorded USE",
     "a repository package is fetch-restricted iff 'fetch' is in its RESTRICT evaluated under the USE of the configured package (the raw package behind _raw_pkg keeps the conditional)",
     "--modified is given as an absolute threshold (parse_time reads the clock); --size goes through parse_size('1K')",
+    "the installed side (domain.all_installed_repos) is a livefs SimpleTree of configured packages, the repository side a SimpleTree; "
     "pkgsets and --exclude-file are not used; namespace.repo is given explicitly; _remove runs with a tty stdout, pretend off",
 ]
 BOUNDS = {
@@ -297,7 +298,15 @@ def run_case(root, case, cache=None):
             pkgs[(p.category, p.package, p.fullver)] = p
             cpvs.setdefault(p.category, {}).setdefault(p.package, []).append(p.fullver)
         tree = SimpleTree(cpvs, pkg_klass=lambda c, p, v: pkgs[(c, p, v)], repo_id="c46-fake")
-        installed = [_pkg(spec) for spec in case["installed"]]
+        # the installed side is a repository object too (domain.all_installed_repos is the combined vdb tree), so
+        # iteration, itermatch() and match() all work on it
+        ipkgs = {}
+        icpvs = {}
+        for spec in case["installed"]:
+            p = _pkg(spec)
+            ipkgs[(p.category, p.package, p.fullver)] = p
+            icpvs.setdefault(p.category, {}).setdefault(p.package, []).append(p.fullver)
+        installed = SimpleTree(icpvs, pkg_klass=lambda c, p, v: ipkgs[(c, p, v)], livefs=True, repo_id="c46-vdb")
         built = (tree, installed)
         if cache is not None:
             cache[key] = built
